@@ -27,6 +27,7 @@ type c19Spec struct {
 	NoSemi    bool       `json:"semi_sync_off"`                                // the pre-switchover turbo phase exists only with semi-sync; without it the switchover itself must switch optimisation off
 	SlowTurbo bool       `json:"target_answers_slowly_during_the_turbo_phase"` // the first two settings statements reaching the target after the turbo phase registered it take 4 s each
 	TwoLeave  bool       `json:"two_relaxed_registered_hosts_leave_in_one_pass_first_restore_fails"`
+	LeaveWait bool       `json:"relaxed_host_leaves_while_another_waits_and_its_restore_fails_once"`
 	Subject   int        `json:"subject_replica"` // register_just_above_high: which replica (the daemons start 0.7 s apart, so this varies the phase between its health checks and the manager's ticks)
 }
 
@@ -70,6 +71,16 @@ func c19Gen(seed int64, idx int) c19Spec {
 		sp.Reg[0], sp.Reg[1] = "enabled", "enabled"
 		sp.Lags[0], sp.Lags[1] = fp(10), fp(10)
 		sp.PreRelax[0], sp.PreRelax[1] = false, false
+	}
+	if sp.Event == "converge" && (idx/len(c19Events))%2 == 1 {
+		// the one relaxed host has converged and leaves while a second registered host still waits for its turn, and the
+		// restore of the leaving one fails once: the waiting host must not be relaxed before the leaving one is restored
+		sp.LeaveWait, sp.FailEach, sp.Stopped, sp.Ghost = true, 0, -1, false
+		for i := range sp.Reg {
+			sp.Reg[i], sp.PreRelax[i] = "none", false
+		}
+		sp.Reg[0], sp.Reg[1] = "enabled", "new"
+		sp.Lags[0], sp.Lags[1] = fp(10), fp(500)
 	}
 	if sp.Event == "register_just_above_high" {
 		// the first replica is clean, unregistered and not lagging until the event; no failing statements
@@ -122,12 +133,17 @@ func c19Run(u *Unit) {
 			if i == sp.Stopped {
 				x.IORun, x.SQLRun = false, false
 			}
+			if sp.LeaveWait && i == 0 {
+				x.SyncBinlog, x.FlushLog = 1000, 2
+				x.SyncBinlogWriter, x.FlushLogWriter, x.SettingsWriter = "mysync_"+hosts[0], "mysync_"+hosts[0], "mysync_"+hosts[0]
+			}
 			if sp.TwoLeave && i < 2 {
 				x.SyncBinlog, x.FlushLog = 1000, 2
 				x.SyncBinlogWriter, x.FlushLogWriter, x.SettingsWriter = "mysync_"+hosts[0], "mysync_"+hosts[0], "mysync_"+hosts[0]
 			}
 		}
 		var firstRestore, restoredOnce atomic.Bool
+		var leaveFails atomic.Int32
 		var fmu sync.Mutex
 		nset := 0
 		var turboArmed atomic.Int32
@@ -141,6 +157,11 @@ func c19Run(u *Unit) {
 			})
 		}
 		w.Fault = func(c *world.StmtCtx) world.FaultAction {
+			if sp.LeaveWait && c.Host == hosts[1] && (c.Class == "set_sync_binlog" || c.Class == "set_flush") && strings.HasPrefix(c.Caller, "mysync_") && leaveFails.Add(1) <= 3 {
+				// (the first three passes: in the very first one the lag of the waiting host is not known yet)
+				sc.Cover("restore-of-the-leaving-host-failed-while-another-waits")
+				return world.FaultAction{Kind: "fail", Errno: 1105}
+			}
 			if sp.TwoLeave && (c.Class == "set_sync_binlog" || c.Class == "set_flush") && strings.HasPrefix(c.Caller, "mysync_") && firstRestore.CompareAndSwap(false, true) {
 				sc.Cover("first-restore-of-a-batch-failed")
 				return world.FaultAction{Kind: "fail", Errno: 1105}
@@ -306,6 +327,9 @@ func c19Run(u *Unit) {
 		switch sp.Event {
 		case "converge":
 			for i := range sp.Lags {
+				if sp.LeaveWait && i == 1 {
+					continue // the waiting host keeps lagging
+				}
 				setLag(i, fp(5))
 			}
 		case "diverge":
@@ -412,7 +436,7 @@ func lagStr(l []*float64) string {
 func init() {
 	register(&Prop{ID: "C19", Units: func(tier string) int { return tierN(tier, 270, 6300) }, Run: c19Run,
 		Floor: func(string) []string {
-			return []string{"one-replica-optimizing", "registry-drop", "drop-of-unregistered-host", "promotion", "converged-or-unknown-lag-host", "registered-just-above-the-high-mark", "turbo-phase-with-slow-target", "first-restore-of-a-batch-failed"}
+			return []string{"one-replica-optimizing", "registry-drop", "drop-of-unregistered-host", "promotion", "converged-or-unknown-lag-host", "registered-just-above-the-high-mark", "turbo-phase-with-slow-target", "first-restore-of-a-batch-failed", "restore-of-the-leaving-host-failed-while-another-waits"}
 		},
 		Rule: "scenario = 3-5 node cluster (semi-sync off in a third) with per-replica lag around both marks {10,59,60,119,120,121,500}, a replica with stopped replication (unknown lag), initial registry entries (none / new / enabled, plus an unregistered host), settings already relaxed by the operator, every k-th settings statement failing, and an event (steady, lags converge, lags diverge, operator enables all, operator disables all, planned switchover to a lagging target, switchover from the master, replica taken offline by lag, replica registered while its falling lag is just above the high mark under a slow manager whose health-record reads are stale when it acts); oracles on ground truth: after every completed manager iteration that ran its sync at most one replica carries relaxed settings last written by mysync and none untracked, every registry drop by a daemon finds the host's settings equal to the master's (or the host unregistered), promotions find the target unrelaxed and unregistered, a freeze begins with no relaxed member, converged / unknown-lag hosts end restored and dropped; distinct by the cover tuple"})
 }
